@@ -170,3 +170,28 @@ def family_H(tier, seed, n=None):
     for t in range(n - n // 2):                               # seeded
         out.append(hist_mix(rnd, "H/s%d/%d" % (seed, t), steps=rnd.randint(6, 14)))
     return out
+
+
+def family_objlist_randmode(tier, seed):
+    """an element of a random object list is switched off with rand_mode: it keeps its values through later calls - also after
+    another element was replaced by index assignment or the whole object list was edited around it"""
+    from .fam_expr import fld, mcall, wcall
+    out = []
+    for t in range(3 if tier == "quick" else 12):
+        rnd = random.Random(3300 + t + (seed if t >= 2 else 0) * 100)
+        sub = {"base": "", "fields": [fld("x", 2, False), fld("y", 2, False)],
+               "blocks": [{"name": "sc", "dynamic": False, "body": [E(B("ne", F("x"), F("y")))]}]}
+        top = {"base": "", "fields": [fld("a", 2, False), {"name": "ol", "kind": "objlist", "cls": "Sub", "n": 3, "rand": True}],
+               "blocks": [{"name": "c1", "dynamic": False, "body": [E(B("le", F("a"), F("ol[0].x")))]}]}
+        world = {"classes": {"Sub": sub, "Top": top}, "population": [{"id": "o1", "cls": "Top"}]}
+        off = 1 + t % 2
+        other = 0 if t % 3 else (2 if off == 1 else 0)
+        ops = [{"op": "construct", "o": "o1"}, {"op": "call", "call": mcall("o1")},
+               {"op": "rand_mode", "p": "o1.ol[%d]" % off, "b": False},
+               {"op": "set", "p": "o1.ol[%d].x" % off, "v": bits(3, 2)}, {"op": "set", "p": "o1.ol[%d].y" % off, "v": bits(1, 2)},
+               {"op": "call", "call": mcall("o1")}, {"op": "call", "call": mcall("o1")},
+               {"op": "ol_setitem", "p": "o1.ol", "i": other},
+               {"op": "call", "call": mcall("o1")}, {"op": "call", "call": wcall([E(B("ne", F("a"), lit(0)))], "o1")},
+               {"op": "rand_mode", "p": "o1.ol[%d]" % off, "b": True}, {"op": "call", "call": mcall("o1")}]
+        out.append({"id": "H/olrm/%d" % t, "world": world, "ops": ops, "tags": []})
+    return out
